@@ -18,6 +18,8 @@ depends only on replicated data; structural):
         not restricted to the prefix up to `location`.
  R7 K2  duplicates are recognised: Transaction::locate answers "absent" only after the committed graph and
         every transaction tip were searched.
+ R8 K1+K6 a rejected offer leaves the transaction's tips as they were (shared with C06-R7/C09-R4): the parent
+        tip is retired only after its child was added, a fresh empty perspective is dropped, nothing else.
 Not decided: equality of heads/facts/hello head over all delivery histories (value-level)."""
 from rules.core import rt, pat
 
@@ -32,6 +34,8 @@ def run(F, rep, tier):
     rt.rule_fold_siblings(F, rep)
     rt.rule_vm_merge(F, rep)
     rt.rule_locate(F, rep)
+    from rules.props import C06 as _c06
+    _c06.check_install_fill(F, rep)   # R8: a rejected offer must not change the transaction's tips (shared with C06-R7 / C09-R4)
     cm = F.fn(rt.TX + "Transaction::commit")
     hs = [c for c in cm.calls if c.path and "head_set::HeadSet" in c.path]
     pushes = [c for c in hs if c.name == "push"]
